@@ -4,6 +4,8 @@ import XcpProofs.NoClobberTree
 import XcpProofs.MultiNoClobber
 import XcpProofs.GiConc
 import XcpProofs.MultiCollision
+import XcpProofs.DerefNoClobber
+import XcpProofs.EndToEndMore
 /-! # C08 — `--no-clobber` never alters anything that already exists in the destination
 
 Model slice: the walker's existence probe (`lstat` after the `fix:` commit) and `execOps`.
@@ -212,5 +214,45 @@ theorem a_collision_among_several_sources_exits_nonzero (fs : Fs) (c : Cfg) (des
       L0.final s = true → s.failed = true) ∧
     (execOps fs c (multiOps fs c dest items)).exit = .err :=
   multi_collision_fails fs c dest items fuel hd hn hwf hdest hdd hfuel hsrc hnd hun hcol hlen
+
+/-- … and together with `--dereference`: the copies of what the links lead to are created like any other entry — on targets
+that do not exist at that moment, keeping every initial entry, in every reachable state, and nothing fails -/
+theorem one_source_with_dereference_any_interleaving_preserves (fs : Fs) (c : Cfg) (hd : c.dereference = true) (hn : c.noClobber = true)
+    (src tb : RPath) (s : SNode) (fuel : Nat)
+    (hwf : FsEq fs fs)
+    (hsrc : AbsNames src)
+    (hder : derefS fs (fuel + 1) src.names [] = some s)
+    (htb : PlainTarget fs tb) (hne : tb.names ≠ []) (habs : fs.root.getAt tb.names = none)
+    (hpar : ∃ es, fs.root.getAt tb.names.dropLast = some (.dir es))
+    (hlen : tb.names.length + fuel < 255)
+    (ls : List L0.Label) (st : L0.St)
+    (hrun : L0.run c (L0.init fs (walkEntry fs c none src tb (fuel + 1) [] [])) ls = some st) :
+    Preserved fs.root st.fs.root ∧
+    (∀ op ∈ st.queue, ∀ t, opTarget op = some t → st.fs.lexists t = false) ∧
+    (∀ op r, st.todo = op :: r → ∀ t, opTarget op = some t → st.fs.lexists t = false) ∧
+    st.failed = false :=
+  deref_noclobber_any_interleaving fs c hd hn src tb s fuel hwf hsrc hder htb hne habs hpar hlen ls st hrun
+
+/-- THE WHOLE PROGRAM MODEL under `--no-clobber` (`L1run`: validation, then every source probed and walked in the state the
+earlier ones left — the function the correspondence runs compare with the real program): whatever the exit (rejected by
+validation, a collision, success) every entry that existed is kept, and if any target exists the exit is non-zero -/
+theorem whole_invocation_keeps_what_exists_and_reports_a_collision (fs : Fs) (o : Opts) (texts : GiTexts) (dest : RPath)
+    (items : List CopySrc) (fuel : Nat)
+    (hd : o.cfg.dereference = false) (hn : o.cfg.noClobber = true) (hg : o.cfg.gitignore = false)
+    (hnt : o.cfg.noTargetDir = false) (hglob : o.glob = false)
+    (hpaths : (o.targetDir = none ∧ o.paths = items.map (·.path) ++ [dest]) ∨
+      (o.targetDir = some dest ∧ o.paths = items.map (·.path)))
+    (hwf : FsEq fs fs)
+    (hdest : PlainTarget fs dest) (hdd : ∃ es, fs.root.getAt dest.names = some (.dir es))
+    (hfuel : fuel < walkFuel)
+    (hsrc : ∀ e ∈ items, PlainTarget fs e.path ∧ e.path.fileName = some e.base ∧
+      fs.root.getAt e.path.names = some e.node ∧ e.node.Copyable fuel ∧ e.path.names.length + walkFuel < 256)
+    (hnd : (items.map (·.base)).Nodup)
+    (hun : ∀ e ∈ items, ∀ e' ∈ items,
+      ¬ e.path.names <+: dest.names ++ [e'.base] ∧ ¬ dest.names ++ [e'.base] <+: e.path.names)
+    (hlen : dest.names.length + 1 + walkFuel < 256) :
+    Preserved fs.root (L1run fs o texts).fs.root ∧
+    ((∃ e ∈ items, fs.root.getAt (dest.names ++ [e.base]) ≠ none) → (L1run fs o texts).exit = .err) :=
+  whole_invocation_noclobber_preserves fs o texts dest items fuel hd hn hg hnt hglob hpaths hwf hdest hdd hfuel hsrc hnd hun hlen
 
 end Xcp.C08
